@@ -506,10 +506,9 @@ func (wg *WeightedAuthorizationModelGraph) calculateNodeWeightWithEnforceTypeStr
 		return fmt.Errorf("%w: %s node does not have any terminal type to reach to", ErrInvalidModel, node.uniqueLabel)
 	}
 
-	for _, edge := range edges {
-		// for but not ensure that the first edge is the left edge
-		// the first time, take the weights of the edge
-		if len(weights) == 0 {
+	for idx, edge := range edges {
+		// the first edge seeds the result with its weights, every later edge can only remove types from it
+		if idx == 0 {
 			for key, value := range edge.weights {
 				weights[key] = value
 			}
